@@ -459,9 +459,18 @@ def g_ifwhile_program(rng, tier):
             body.extend(loop(cvars[1:], wdepth - 1, rng.choice([0, 1, 2])))
         # what follows the conditional inside the body: skipped by a jump out of the loop or back to its head
         r = rng.random()
-        if r < 0.45:
+        if inc_first and r < 0.4:
+            # if/else as the LAST statement of the body (the jump over `else` lands on the loop's jump back), with a
+            # condition that holds in the last iteration
+            last = iftree(c, k + 1, max(idepth - 1, 0), cvars, True, 0)
+            if not last["if"][2]:
+                last["if"][2] = [blocking(False)]
+            if rng.random() < 0.6:
+                last["if"][0] = {"bin": [rng.choice(["eq", "ge"]), var(c), lit(k)]}
+            body.append(last)
+        elif r < 0.6:
             body.append(blocking())
-        elif r < 0.7:
+        elif r < 0.8:
             body.append({"set": ["t", {"bin": ["add", var("t"), lit(1)]}]})
         body = [inc] + body if inc_first else body + [inc]
         return [{"set": [c, lit(0)]}, {"while": [{"bin": ["lt", var(c), lit(k)]}, body]}]
@@ -487,6 +496,71 @@ def g_ifwhile_program(rng, tier):
         main += loop(["i", "j"], 0, 1)      # the same counter again: the second reach of a loop head
         main.append({"b": nm.bot()})
     return [{"name": "f0", "sub": False, "body": main}] + subs
+
+
+def g_subcall_program(rng, tier):
+    """The SECOND use of a subflow: subflows whose statements all sit under conditions on context variables (so a call
+    may run through without blocking and without assigning anything, or block, depending on the context), called
+    several times — twice in sequence with the context changed in between, in every iteration of a loop of the caller
+    (guards on the loop counter), from two dialog flows, nested (s0 calls s1 under a guard) — each call placed directly
+    after a step statement of the caller, so that the event on which the call happens has assigned nothing before it."""
+    nm = Names()
+    lit = lambda n: {"lit": {"i": n}}  # noqa: E731
+    var = lambda v: {"var": v}  # noqa: E731
+
+    def blocking(allow_user=True):
+        r = rng.random()
+        if r < 0.55:
+            return {"b": nm.bot()}
+        if r < 0.75 and allow_user:
+            return {"u": nm.user()}
+        return {"x": [nm.act(), [], rng.choice([None, "r"])]}
+
+    def guarded_body(v, callee=None):
+        body = []
+        for _ in range(rng.choice([1, 1, 2])):
+            c = {"bin": [rng.choice(["eq", "ge", "lt", "ne"]), var(v), lit(rng.choice([0, 1, 1, 2]))]}
+            then = [blocking()] if rng.random() < 0.75 else [{"set": [rng.choice(["y", "z"]), {"bin": ["add", var("y"), lit(1)]}]}]
+            if callee and rng.random() < 0.4:
+                then.append({"do": callee})
+                callee = None
+            if rng.random() < 0.3:
+                then.append({"set": ["z", {"bin": ["add", var("z"), lit(1)]}]})
+            els = []
+            if rng.random() < 0.3:
+                els = [blocking(False)] if rng.random() < 0.5 else [{"set": ["z", lit(rng.choice([0, 2]))]}]
+            body.append({"if": [c, then, els]})
+        if rng.random() < 0.15:
+            body.append(blocking(False))
+        return body
+
+    shape = rng.choice(["twice", "twice", "loop", "loop", "two_flows"])
+    gv = "i" if shape == "loop" else "x"
+    nested = rng.random() < 0.35
+    subs = []
+    if nested:
+        subs.append({"name": "s1", "sub": True, "body": guarded_body(rng.choice([gv, "y"]))})
+    subs.insert(0, {"name": "s0", "sub": True, "body": guarded_body(gv, "s1" if nested else None)})
+    init = [{"set": [a, lit(rng.choice([0, 0, 1]))]} for a in VARS]
+    main = [{"u": nm.user()}] + init + [{"b": nm.bot()}]
+    mains = []
+    if shape == "twice":
+        main += [{"do": "s0"}, {"b": nm.bot()}, {"set": ["x", {"bin": ["add", var("x"), lit(rng.choice([1, 1, 2]))]}]}, blocking(False), {"do": "s0"}]
+        if rng.random() < 0.5:
+            main += [{"set": ["x", {"bin": ["add", var("x"), lit(1)]}]}, {"b": nm.bot()}, {"do": "s0"}]
+    elif shape == "loop":
+        k = rng.choice([2, 3, 3])
+        body = [blocking(False), {"do": "s0"}]
+        if rng.random() < 0.4:
+            body.append({"if": [{"bin": ["eq", var("i"), lit(rng.randrange(0, k))]}, [blocking()], []]})
+        body.append({"set": ["i", {"bin": ["add", var("i"), lit(1)]}]})
+        main += [{"set": ["i", lit(0)]}, {"while": [{"bin": ["lt", var("i"), lit(k)]}, body]}]
+    else:
+        main += [{"do": "s0"}]
+        other = [{"u": nm.user()}, {"set": ["x", lit(rng.choice([1, 2]))]}, {"b": nm.bot()}, {"do": "s0"}, {"b": nm.bot()}]
+        mains.append({"name": "f1", "sub": False, "body": other})
+    main.append({"b": nm.bot()})
+    return [{"name": "f0", "sub": False, "body": main}] + mains + subs
 
 
 def if_in_while_profile(flows):
@@ -1155,6 +1229,13 @@ def gen_cases(rng, tier):
         for mode in ("follow", "follow", "leave"):
             cases.append({"kind": "fn" if sub5.random() < 0.88 else "rt", "flows": flows, "history": g_history(sub5, flows, mode), "seed": sub5.randrange(1 << 30)})
         cases.append({"kind": "fn", "flows": flows, "history": g_reentry_history(sub5, flows), "seed": sub5.randrange(1 << 30)})
+    # the second use of a subflow whose behaviour depends on the context
+    sub6 = random.Random(rng.randrange(1 << 30))
+    for _ in range(40 if tier == "quick" else 800):
+        flows = g_subcall_program(sub6, tier)
+        for mode in ("follow", "follow", "leave"):
+            cases.append({"kind": "fn" if sub6.random() < 0.88 else "rt", "flows": flows, "history": g_history(sub6, flows, mode), "seed": sub6.randrange(1 << 30)})
+        cases.append({"kind": "fn", "flows": flows, "history": g_reentry_history(sub6, flows), "seed": sub6.randrange(1 << 30)})
     return cases
 
 
